@@ -516,7 +516,33 @@ where
                     let rb = guard(|| S::PC::batch_check(&keys.vk, [&c2], &qs, &ev, &bp, &mut sp, &mut rng(3)));
                     expect_reject(ctx, P, S::NAME, "batch_check", "unbounded_presented_under_bound", &rb, || {
                         format!("degree {deg_u} committed without bound, presented under bound {d}")
-                    })
+                    })?;
+                    // and inside a two-term combination [1*p + k*q]: the prover opens it over the unbounded
+                    // polynomials, the verifier is handed p's commitment relabelled with bound d
+                    {
+                        use ark_poly_commit::{LCTerm, LinearCombination};
+                        let qu = rand_poly::<S>(pick(c.deg_choice, sup + 1), c.seed ^ 0x67);
+                        let lqu = LabeledPolynomial::new("q".into(), qu.clone(), None, hu);
+                        let Out::Ok((cq, sq)) = commit1::<S>(&keys, &lqu, c.seed ^ 2) else { return Ok(()) };
+                        let k = S::F::from(3u64);
+                        let lc = LinearCombination::new("lc", vec![(S::F::one(), LCTerm::PolyLabel("p".into())), (k, LCTerm::PolyLabel("q".into()))]);
+                        let mut qs = std::collections::BTreeSet::new();
+                        qs.insert(("lc".to_string(), ("z".to_string(), z.clone())));
+                        let mut ev = std::collections::BTreeMap::new();
+                        ev.insert(("lc".to_string(), z.clone()), vu + k * qu.evaluate(&z));
+                        let mut sp = sponge::<S::F>(0);
+                        let mut r1 = rng(c.seed ^ 4);
+                        let opened = guard(|| S::PC::open_combinations(&keys.ck, [&lc], [&lpu, &lqu], [&cu, &cq], &qs, &mut sp, [&su, &sq], Some(&mut r1)));
+                        if let Out::Ok(lp) = opened {
+                            let mut sp = sponge::<S::F>(0);
+                            let rc = guard(|| S::PC::check_combinations(&keys.vk, [&lc], [&c2, &cq], &qs, &ev, &lp, &mut sp, &mut rng(5)));
+                            ctx.label("unbounded_commitment_presented_under_bound_inside_a_combination");
+                            expect_reject(ctx, P, S::NAME, "check_combinations", "unbounded_presented_under_bound", &rc, || {
+                                format!("degree {deg_u} committed without bound, presented under bound {d} as a term of p + 3q")
+                            })?;
+                        }
+                    }
+                    Ok(())
                 }
                 0 => {
                     // bound dropped from the label (and the separate part, where there is one)
